@@ -622,7 +622,19 @@ func c01Case(res *vResult, agents []*c01Agent, idx int, forced *c01Plan) {
 			c01NoAnswer(res, ag, why+" (same association)", &plan)
 			return
 		}
-		res.violate("C01.R4", "same-assoc "+plan.Seed, "after the hostile datagram, on the same association: "+why, plan)
+		// An association of a heartbeat-enabled agent can end for a reason that predates the probe (a heartbeat that went
+		// unanswered while the peer was "pending" runs out of retransmissions right now): the probe is then refused for
+		// lack of an association. Damage done by the datagram would still be there on a second attempt.
+		ok2, why2 := false, "(not repeated)"
+		endedKind := strings.HasSuffix(why, "cause 72") || strings.Contains(why, "Deletion Request answered with type 55 cause 6")
+		if ag.hb && endedKind && c01Request(p, p.assocSetup(150), 150) != nil {
+			ok2, why2 = c01Probe(p, 151, idx+7)
+		}
+		if !ok2 {
+			res.violate("C01.R4", "same-assoc "+plan.Seed, "after the hostile datagram, on the same association: "+why+"; and again after setting the association up once more: "+why2, plan)
+		} else {
+			res.event("probes_repeated_after_association_ended", 1)
+		}
 	}
 	res.event("probes_same_assoc", 1)
 	if idx%4 == 0 {
